@@ -2,6 +2,7 @@ import GqlProofs.ValSpec.Local
 import GqlProofs.ValSpec.Stateful
 import GqlProofs.ValSpec.Spreads
 import GqlProofs.ValSpec.KnownDirs
+import GqlProofs.ValSpec.LeafFrag
 /-
   C08 — validation accepts exactly what the rules allow.
 
@@ -33,13 +34,29 @@ import GqlProofs.ValSpec.KnownDirs
   `docSels_iff`, `directiveSites_iff`): the field / directive / directive-list events of a run are
   exactly the field nodes and directive lists the specification quantifies over.
 
+  and, through `walk_parent_type` (`GqlProofs/ValSpec/TypedBridge.lean`: for a well-parented
+  document — `Spec.wellParented`: every selection is written where the type in scope is composite,
+  and `__typename` is not selected where that type is undetermined — the walker's parent
+  definition and field definition of every field node are the declarative ones of `Spec.docSels`):
+    C08_FieldsOnCorrectType      §5.3.1
+    C08_KnownArgumentNames       §5.4.1
+    C08_ProvidedRequiredArguments §5.4.2.1
+    C08_ScalarLeafs              §5.3.3 (field types are output types: `Spec.fieldTypesAreOutputTypes`)
+    C08_FragmentsOnCompositeTypes §5.5.1.3 (no hypothesis on the document; no type has the empty name)
+  `Spec.wellParented` fails only for documents that both sides reject (it needs a fragment on a
+  non-composite type, a sub-selection on a leaf, an undefined field / root type / type condition
+  with `__typename` below it); outside it the walker gives `__typename` a definition on any parent
+  and finds the input fields of an input object used as a parent, which the rule-by-rule comparison
+  of the check masks for the same reason.
+
   NOT finished (the full statement, kept as the goal):
     C08_verdict : Closed s → (validate defaultRules s d = .ok [] ↔ Spec.specValid s d = true)
   It is FALSE for the current tree: the check `vcheck -prop C08` finds the deviations R8b–R8e, N1,
-  N2 (DESIGN §7) on the real validator, and the rule models reproduce them.  The per-rule theorems
-  for the rules that read types (KnownDirectives, KnownArgumentNames, ScalarLeafs, …) need the lemma
-  `walk_parent_type` (the walker's parent definition of a node equals `Spec.typedSels`' parent
-  whenever every enclosing parent is composite); it is not proved yet.
+  N2 (DESIGN §7) and two more on the real validator, and the rule models reproduce them.  Rules
+  without a theorem yet: KnownRootType, KnownTypeNames, MaxIntrospectionDepth, NoFragmentCycles,
+  NoUndefinedVariables, NoUnusedFragments, NoUnusedVariables, PossibleFragmentSpreads,
+  SingleFieldSubscriptions, UniqueInputFieldNames, ValuesOfCorrectType, VariablesAreInputTypes,
+  VariablesInAllowedPosition (and OverlappingFieldsCanBeMerged, which has no model in this tree).
 -/
 open Gql Gql.Validate Gql.Validate.Rules
 
@@ -198,6 +215,54 @@ theorem C08_UniqueDirectivesPerLocation_complete (s : Schema) (d : QueryDoc)
   unfold uniqueDirectivesPerLocation at h
   rw [validate_stateless_nil s d _ _ evs hw] at h
   exact uniqueDirectivesPerLocation_complete s d evs hw hk h
+
+/-- §5.3.1 — for a well-parented document FieldsOnCorrectType reports nothing iff every field is
+    defined on the type in scope -/
+theorem C08_FieldsOnCorrectType (s : Schema) (d : QueryDoc) (hwp : Spec.wellParented s d = true) :
+    validate [fieldsOnCorrectType] s d = .ok [] ↔ Spec.fieldSelections s d = true := by
+  obtain ⟨evs, hw⟩ := walkDoc_isSome s.view d
+  unfold fieldsOnCorrectType
+  rw [validate_stateless_nil s d _ _ evs hw]
+  exact fieldsOnCorrectType_iff s d evs hw hwp
+
+/-- §5.4.1 — KnownArgumentNames reports nothing iff every argument of a field or directive is
+    defined by it -/
+theorem C08_KnownArgumentNames (s : Schema) (d : QueryDoc) (hwp : Spec.wellParented s d = true)
+    (hk : ∀ op ∈ d.ops, op.op ∈ parserOpKinds) :
+    validate [knownArgumentNames] s d = .ok [] ↔ Spec.argumentNames s d = true := by
+  obtain ⟨evs, hw⟩ := walkDoc_isSome s.view d
+  unfold knownArgumentNames
+  rw [validate_stateless_nil s d _ _ evs hw]
+  exact knownArgumentNames_iff s d evs hw hwp hk
+
+/-- §5.4.2.1 — ProvidedRequiredArguments reports nothing iff every required argument of a field or
+    directive is given -/
+theorem C08_ProvidedRequiredArguments (s : Schema) (d : QueryDoc) (hwp : Spec.wellParented s d = true)
+    (hk : ∀ op ∈ d.ops, op.op ∈ parserOpKinds) :
+    validate [providedRequiredArguments] s d = .ok [] ↔ Spec.requiredArguments s d = true := by
+  obtain ⟨evs, hw⟩ := walkDoc_isSome s.view d
+  unfold providedRequiredArguments
+  rw [validate_stateless_nil s d _ _ evs hw]
+  exact providedRequiredArguments_iff s d evs hw hwp hk
+
+/-- §5.3.3 — ScalarLeafs reports nothing iff leaf fields have no sub-selection and composite fields
+    have one -/
+theorem C08_ScalarLeafs (s : Schema) (d : QueryDoc) (hwp : Spec.wellParented s d = true)
+    (hout : Spec.fieldTypesAreOutputTypes s d = true) :
+    validate [scalarLeafs] s d = .ok [] ↔ Spec.leafFieldSelections s d = true := by
+  obtain ⟨evs, hw⟩ := walkDoc_isSome s.view d
+  unfold scalarLeafs
+  rw [validate_stateless_nil s d _ _ evs hw]
+  exact scalarLeafs_iff s d evs hw hwp hout
+
+/-- §5.5.1.3 — FragmentsOnCompositeTypes reports nothing iff every type condition that names a type
+    names a composite one -/
+theorem C08_FragmentsOnCompositeTypes (s : Schema) (d : QueryDoc) (hE : s.type? [] = none) :
+    validate [fragmentsOnCompositeTypes] s d = .ok [] ↔ Spec.fragmentsOnCompositeTypes s d = true := by
+  obtain ⟨evs, hw⟩ := walkDoc_isSome s.view d
+  unfold fragmentsOnCompositeTypes
+  rw [validate_stateless_nil s d _ _ evs hw]
+  exact fragmentsOnCompositeTypes_iff s d evs hw hE
 
 /-- the one-rule theorems transfer to any rule set with distinct names (C18): here for the default
     rule set and LoneAnonymousOperation -/
